@@ -338,6 +338,11 @@ func execTxnObs(c *column.Collection, sch *Schema, live []bool, t TxnSpec, obs f
 			}
 		}()
 		err = c.Query(func(txn *column.Txn) error {
+			if t.Prefilter > 0 && (live == nil || live[t.Prefilter-1]) {
+				if n := txn.WithValue(sch.Cols[t.Prefilter-1].Name, func(interface{}) bool { return false }).Count(); n != 0 {
+					panic(fmt.Sprintf("a filter that accepts nothing selects %d rows", n))
+				}
+			}
 			for i := range t.Steps {
 				execStep(txn, sch, live, t.Steps, i, res)
 				if obs != nil {
@@ -421,7 +426,7 @@ func execStep(txn *column.Txn, sch *Schema, live []bool, steps []Step, i int, re
 // execDirect runs a single-step transaction through the collection-level
 // convenience methods (Insert, QueryAt, DeleteAt, InsertKey, ...).
 func execDirect(c *column.Collection, sch *Schema, live []bool, t TxnSpec) ([]StepResult, error, bool) {
-	if len(t.Steps) != 1 || t.FailAt >= 0 || t.Steps[0].HasPeek || t.Steps[0].AlsoKey != "" || len(t.Touch) > 0 {
+	if len(t.Steps) != 1 || t.FailAt >= 0 || t.Steps[0].HasPeek || t.Steps[0].AlsoKey != "" || len(t.Touch) > 0 || t.Prefilter > 0 {
 		return nil, nil, false
 	}
 	st := t.Steps[0]
